@@ -407,6 +407,8 @@ def check(run):
         if k not in kinds:
             raise MachineryError("vacuous enumeration: no expected output contains a %r token" % k)
 
+    if not any(t.startswith("val|") and t.endswith("|0") for r in recs for t in r["out"]):
+        raise MachineryError("vacuous enumeration: no expected output contains a falsy attribute value")
     # ------------------------------------------------------------------ 2. R: replay every configuration
     items = []
     for idx, r in enumerate(recs):
